@@ -234,26 +234,77 @@ def bases(ctx, d):
     return out
 
 
+HANG_S = 10   # wall-clock seconds the parent waits for ONE input before it declares a hang and kills the worker
+
+
 def run_workers(ctx, mutants: dict):
-    """mutants: id -> bytes.  Returns id -> result dict.  Disposable worker processes (16), each fed a share."""
+    """mutants: id -> bytes.  Returns id -> result dict.  16 disposable worker processes are fed ONE input at a time; the
+    parent enforces the watchdog itself (the worker's own alarm cannot be relied on: an exception raised from a signal handler
+    while the parser is inside native code may be swallowed).  A worker that does not answer within HANG_S seconds is killed,
+    the input is recorded as 'timeout', and a fresh worker takes over the rest of the share."""
     import base64
+    import selectors
+    import time
 
     ids = list(mutants)
     shares = [ids[i::16] for i in range(16)]
 
+    def spawn():
+        return subprocess.Popen([core.PY, "-c", WORKER, str(core.REPO)], stdin=subprocess.PIPE, stdout=subprocess.PIPE,
+                                stderr=subprocess.DEVNULL, text=True, bufsize=1, env=core.cli_env(guard=True))
+
     def one(share):
+        rows = []
         if not share:
-            return []
-        inp = "".join(json.dumps({"id": i, "b": base64.b64encode(mutants[i]).decode()}) + "\n" for i in share)
-        p = subprocess.run([core.PY, "-c", WORKER, str(core.REPO)], input=inp, capture_output=True, text=True, env=core.cli_env(guard=True))
-        rows = [json.loads(line) for line in p.stdout.splitlines() if line.startswith("{")]
-        done = {r["id"] for r in rows}
+            return rows
+        p = spawn()
+        sel = selectors.DefaultSelector()
+        sel.register(p.stdout, selectors.EVENT_READ)
+
+        def restart():
+            nonlocal p, sel
+            try:
+                p.kill()
+                p.wait(timeout=10)
+            except Exception:
+                pass
+            sel.close()
+            p = spawn()
+            sel = selectors.DefaultSelector()
+            sel.register(p.stdout, selectors.EVENT_READ)
+
         for i in share:
-            if i not in done:
+            t0 = time.time()
+            try:
+                p.stdin.write(json.dumps({"id": i, "b": base64.b64encode(mutants[i]).decode()}) + "\n")
+                p.stdin.flush()
+            except (BrokenPipeError, OSError):
                 rows.append({"id": i, "outcome": "worker-died", "cpu_ms": 0, "rss_kb": 0})
-                break  # the rest of the share was never attempted: re-run it
-        rest = [i for i in share if i not in {r["id"] for r in rows}]
-        return rows + (one(rest) if rest else [])
+                restart()
+                continue
+            line = ""
+            while True:
+                left = HANG_S - (time.time() - t0)
+                if left <= 0 or not sel.select(timeout=left):
+                    break
+                line = p.stdout.readline()
+                if line == "" or line.startswith("{"):
+                    break
+            if line.startswith("{"):
+                rows.append(json.loads(line))
+            elif line == "" and p.poll() is not None:
+                rows.append({"id": i, "outcome": "worker-died", "cpu_ms": int((time.time() - t0) * 1000), "rss_kb": 0})
+                restart()
+            else:
+                rows.append({"id": i, "outcome": "timeout", "cpu_ms": int((time.time() - t0) * 1000), "rss_kb": 0})
+                restart()
+        try:
+            p.stdin.close()
+            p.wait(timeout=10)
+        except Exception:
+            p.kill()
+        sel.close()
+        return rows
 
     with ThreadPoolExecutor(max_workers=16) as ex:
         res = [r for rows in ex.map(one, shares) for r in rows]
